@@ -47,7 +47,7 @@ pub fn plan(quick: bool) -> Vec<Part> {
 }
 
 pub fn finalize(_tier: &str, rep: &mut Report) {
-    rep.rule = "E2: for graphs whose nodes hold 1..12 k-mers, placed first/middle/last in the packed store, K in {4,5,16,32}: BFS over all interleavings of next() and nth(n), n in {0..7, rem-1, rem, rem+1, rem+5, 1000}, until exhaustion plus two further calls; state key = (remaining output of the real iterator, calls after exhaustion); invariant: every output equals the slice-iterator model's, len()/size_hint() exact up front, None after the end. E1: for every graph of the read-set families and long LCG reads (>= 300 k-mers): flattening the graph iteration yields every k-mer exactly once, Mphf::from_chunked_iterator over it maps the graph's k-mers onto distinct slots 0..n-1".into();
+    rep.rule = "E2: for graphs whose nodes hold 1..12 k-mers, placed first/middle/last in the packed store, K in {4,5,16,32}: BFS over all interleavings of next() and nth(n), n in {0..7, rem-1, rem, rem+1, rem+5, 1000, usize::MAX-1, usize::MAX}, until exhaustion plus two further calls; state key = (remaining output of the real iterator, calls after exhaustion); invariant: every output equals the slice-iterator model's, len()/size_hint() exact up front, None after the end. E1: for every graph of the read-set families and long LCG reads (>= 300 k-mers): flattening the graph iteration yields every k-mer exactly once, Mphf::from_chunked_iterator over it maps the graph's k-mers onto distinct slots 0..n-1".into();
     rep.assumptions.push("state canonicalisation: the iterator's private state is (position, current k-mer); both are determined by its remaining output under next(), which is the key (argument in DESIGN.md C18)".into());
     rep.floor("E2:unique_states", 100);
     rep.floor("R1+RT@K4:mphf_over_five_or_more_kmers", 1);
@@ -151,7 +151,7 @@ impl<K: Kmer + Send + Sync> Model for IterModel<K> {
         }
         a.push(Op::Next);
         let rem = s.key.len();
-        let mut ns: Vec<usize> = vec![0, 1, 2, 3, 4, 5, 6, 7, rem.saturating_sub(1), rem, rem + 1, rem + 5, 1000];
+        let mut ns: Vec<usize> = vec![0, 1, 2, 3, 4, 5, 6, 7, rem.saturating_sub(1), rem, rem + 1, rem + 5, 1000, usize::MAX - 1, usize::MAX];
         ns.sort();
         ns.dedup();
         for n in ns {
